@@ -236,6 +236,14 @@ func orderString(cs Case, order []int) string {
 }
 
 func runCli(cs Case) ev.Outcome {
+	// The files of one command line share the symbol table of intern() by
+	// design (it is what -sids saves): a file that interns is not expected
+	// to compile alone as it does in a batch.
+	for _, f := range cs.Batch {
+		if strings.Contains(f.Text, "intern(") {
+			return ev.Outcome{Skip: "a batch file interns symbols (symbol IDs are shared between the files of one command line by design)"}
+		}
+	}
 	n := len(cs.Batch)
 	if n == 0 {
 		return ev.Outcome{Skip: "empty batch"}
